@@ -8,8 +8,8 @@
 (* the cells (own row, window block, context token) of its window contexts *)
 (* in proportion to kernel weight x the current cell value.                *)
 (*                                                                         *)
-(* A recorded run is  [V, r, eps, corpus, mats]  : token / timed           *)
-(* vectorizer, one directional window of radius r (block 0 = before,       *)
+(* A recorded run is  [family, V, r, eps, kw, corpus, mats]  : token /     *)
+(* timed / multiset vectorizer, one directional window of radius r (block 0 = before,       *)
 (* block 1 = after, column = block * V + token); kw[j] is the kernel       *)
 (* weight at distance j as a small integer numerator (flat 1,1,1 /         *)
 (* harmonic 2,1 / geometric 4,2,1: only ratios matter); mats[k] is         *)
@@ -37,11 +37,10 @@ U == 2                       \* record / float32 slack on an input cell, in its 
 TOL == 30                    \* slack on the compared cell (3e-5), as in Trace_EM
 Rows == 1..V
 Cols == 1..(2 * V)
-\* floor(x * 10^6 / z) for 0 <= x <= z < 2*10^7 without leaving 32-bit integers
-Div6(x, z) == LET a == x * 100   q1 == a \div z   r1 == a % z
-                  b == r1 * 100  q2 == b \div z   r2 == b % z
-                  c == r2 * 100  q3 == c \div z
-              IN q1 * 10000 + q2 * 100 + q3
+\* floor(x * 10^6 / z) for 0 <= x <= z < 2*10^8 without leaving 32-bit integers (long division, one decimal digit per stage)
+RECURSIVE DivR(_, _, _)
+DivR(x, z, n) == IF n = 0 THEN 0 ELSE LET a == x * 10 IN (a \div z) * Pow(10, n - 1) + DivR(a % z, z, n - 1)
+Div6(x, z) == DivR(x, z, 6)
 \* ---- boxes: [lo, hi] per cell, 0/0 for an absent cell
 BoxOf(M) == [a \in Rows |-> [c \in Cols |-> IF M[a][c] = 0 THEN <<0, 0>> ELSE <<Max2(0, M[a][c] - 1 - U), M[a][c] + U>>]]
 \* column normalisation of a box (any units in, 10^-6 units out); absent stays absent
@@ -64,11 +63,26 @@ Share(B, a, cx, kw, j) ==
        oHi == SumSeq([i \in DOMAIN cx |-> IF i = j THEN 0 ELSE kw[i] * B[a][cx[i]][2]])
    IN IF hi = 0 THEN <<0, 0>>
       ELSE << IF lo = 0 THEN 0 ELSE Div6(lo, lo + oHi), Min2(ONE, Div6(hi, hi + oLo) + 1) >>
-Occs == UNION {{<<d, p>> : p \in DOMAIN X.corpus[d]} : d \in DOMAIN X.corpus}
+\* ---- occurrences, their rows, contexts (columns) and kernel weights, per family
+\* multiset family: a document is a sequence of multisets; the contexts of member q of multiset m are, per block, the other members
+\* of its own multiset (distance 0) and the members of the previous (block 0) / next (block 1) r multisets; kw[k + 1] is the weight
+\* at multiset distance k
+MULTI == X.family = "multi"
+Occs == IF MULTI THEN UNION {UNION {{<<d, m, q>> : q \in DOMAIN X.corpus[d][m]} : m \in DOMAIN X.corpus[d]} : d \in DOMAIN X.corpus}
+        ELSE UNION {{<<d, p>> : p \in DOMAIN X.corpus[d]} : d \in DOMAIN X.corpus}
+Row(o) == IF MULTI THEN X.corpus[o[1]][o[2]][o[3]] + 1 ELSE X.corpus[o[1]][o[2]] + 1
+GroupCtx(doc, m, q, blk) ==        \* <<column, weight>> of one block of a multiset occurrence
+   LET n == IF blk = 0 THEN Min2(X.r, m - 1) ELSE Min2(X.r, Len(doc) - m)
+       g(k) == IF blk = 0 THEN m - k ELSE m + k
+   IN FlattenSeq([kk \in 1..(n + 1) |->
+         SelectSeq([x \in DOMAIN doc[g(kk - 1)] |-> IF kk = 1 /\ x = q THEN <<>> ELSE <<blk * V + doc[g(kk - 1)][x] + 1, X.kw[kk]>>],
+                   LAMBDA e : e # <<>>)])
+CWOf(o) == IF MULTI THEN GroupCtx(X.corpus[o[1]], o[2], o[3], 0) \o GroupCtx(X.corpus[o[1]], o[2], o[3], 1)
+           ELSE LET cx == Ctx(X.corpus[o[1]], o[2])  kw == KW(X.corpus[o[1]], o[2]) IN [j \in DOMAIN cx |-> <<cx[j], kw[j]>>]
 \* posterior box (units: 10^-6 of one occurrence's mass, then divided by 8 so that column totals stay small)
 PostBox(B) == [a \in Rows |-> [c \in Cols |->
-   LET mine == {o \in Occs : X.corpus[o[1]][o[2]] + 1 = a}
-       sh(o) == LET cx == Ctx(X.corpus[o[1]], o[2])  kw == KW(X.corpus[o[1]], o[2]) IN
+   LET mine == {o \in Occs : Row(o) = a}
+       sh(o) == LET cw == CWOf(o)  cx == [j \in DOMAIN cw |-> cw[j][1]]  kw == [j \in DOMAIN cw |-> cw[j][2]] IN
                 <<SumSeq([j \in DOMAIN cx |-> IF cx[j] = c THEN Share(B, a, cx, kw, j)[1] ELSE 0]),
                   SumSeq([j \in DOMAIN cx |-> IF cx[j] = c THEN Share(B, a, cx, kw, j)[2] ELSE 0])>>
        lo == SumOver(mine, LAMBDA o : sh(o)[1])
